@@ -68,15 +68,17 @@ def rule_spec_grammar(ctx, p, cfg, rid="A6"):
         r.require(len(fills) == 1, "one-fill-store", fn=f, detail="stores to Parameters.fill after the default: %d" % len(fills))
         for b, v in fills:
             sv = deep_strip(v)
-            conds = f.conditions(b)
-            chars = [(sb, si, al) for sb, si, al in conds if si.t.get("discr_ty") == "char"]
-            onself = [si for sb, si, al in chars if deep_strip(si.discr) == sv]
+            pc = q.path_condition(f, b)
+            if pc is None:
+                raise ShapeUnrecognised("the condition guarding the fill store is a disjunction")
+            chars = [c for c in pc if c[0] == "inset" and all(x.isdigit() for x in c[2])]
+            onself = [c for c in pc if (c[0] == "inset" and c[1] == sv) or (c[0] != "inset" and any(x == sv for x in walk(c)))]
             r.require(not onself, "fill-is-any-character", fn=f, detail="no test on the fill character itself guards its store",
-                      fail_detail="the fill character is stored only if it passes a test on its own value (%s): some characters, e.g. an alignment character used as fill, are refused" % [show(si.discr, 4) for si in onself])
-            others = [(si, sorted(v_ for v_, _ in al if v_ != "otherwise")) for sb, si, al in chars if deep_strip(si.discr) != sv]
+                      fail_detail="the fill character is stored only if it passes a test on its own value (%s): some characters, e.g. an alignment character used as fill, are refused" % [show(c[1] if c[0] == "inset" else c, 4) for c in onself])
+            others = [(c[1], sorted(int(x) for x in c[2])) for c in chars if c[1] != sv]
             r.require(len(others) == 1 and others[0][1] == [60, 62], "fill-iff-followed-by-alignment", fn=f,
-                      detail="the store is control-dependent on the next character being '<' or '>': %s" % [(show(si.discr, 4), vs) for si, vs in others])
-            r.require(any(x[0] == "call" and x[1].rsplit("::", 1)[-1] in ("peek", "next") for x in walk(sv)) and not any(x[0] == "const" for x in walk(sv) if x[0] == "const" and x[1] == "char"),
+                      detail="the store is control-dependent on the next character being '<' or '>': %s" % [(show(e, 4), vs) for e, vs in others])
+            r.require(any(x[0] == "call" and x[1].rsplit("::", 1)[-1] in ("peek", "next") for x in walk(sv)) and not any(x[0] == "const" and x[1] == "char" for x in walk(sv)),
                       "fill-is-the-looked-at-character", fn=f, detail="stored fill: %s" % show(sv, 4))
         want = {"Left": "<", "Right": ">"}
         got = {}
@@ -85,16 +87,36 @@ def rule_spec_grammar(ctx, p, cfg, rid="A6"):
             if sv[0] != "agg":
                 r.fail("align-store-shape", fn=f, detail="Parameters.align := %s" % show(sv, 3))
                 continue
-            for sb, si, al in f.conditions(b):
-                d = strip(si.discr)
-                if d[0] == "call" and d[1] in p.fns and len(d[2]) == 2 and {si.label(x) for x, _ in al} == {True}:
-                    c = deep_strip(d[2][1])
-                    if c[0] == "const" and c[1] == "char":
-                        got.setdefault(sv[2], set()).add(c[2])
+            pc = q.path_condition(f, b)
+            if pc is None:
+                raise ShapeUnrecognised("the condition guarding an alignment store is a disjunction")
+            for c in pc:
+                d = strip(c)
+                if d[0] == "call" and d[1] in p.fns and len(d[2]) == 2:
+                    ch = deep_strip(d[2][1])
+                    if ch[0] == "const" and ch[1] == "char":
+                        got.setdefault(sv[2], set()).add(ch[2])
+        # the ':' that introduces the whole specification also guards the fill store: not part of the alignment decision
+        common = set()
+        for b, v in fills:
+            for c in q.path_condition(f, b) or []:
+                d = strip(c)
+                if d[0] == "call" and d[1] in p.fns and len(d[2]) == 2 and deep_strip(d[2][1])[0] == "const":
+                    common.add(deep_strip(d[2][1])[2])
         if len(got) >= 2:
-            common = set.intersection(*got.values())    # e.g. the ':' that introduces the whole specification
-            got = {k: v - common for k, v in got.items()}
+            common |= set.intersection(*got.values())
+        got = {k: v - common for k, v in got.items()}
+        # the default alignment needs no store of its own
+        dflt = None
+        for b, i, st in f.assigns():
+            if st["rv"]["k"] == "agg" and st["rv"].get("adt") == PARAMS_ADT:
+                e = f._rvalue(st["rv"], frozenset(), 12, b)
+                a = deep_strip(dict(e[3]).get("align", ("other",)))
+                dflt = a[2] if a[0] == "agg" else None
         for k, ch in want.items():
+            if k not in got and dflt == k:
+                r.ok("align:%s" % k, fn=f, detail="Alignment::%s is the default and no store overrides it on consume(%r)" % (k, ch))
+                continue
             r.require(got.get(k) == {ch}, "align:%s" % k, fn=f, detail="Alignment::%s chosen on consume(%r): %s" % (k, ch, sorted(got.get(k, []))))
 
 
